@@ -123,6 +123,56 @@ def search_impl(k1, rng, n):
     return fails
 
 
+PLACEMENT_CLAUSES = ("cur_wf", "pending", "unmig_empty")
+
+
+def placement_phase(res, tier, rng):
+    """The arithmetic facts are *used* by the table: every stored key must sit in one of its two buckets with its tag, and
+    deferred per-stripe migration may be chosen only when the old bucket count is at least the stripe count (otherwise
+    the bucket a key moves up to lies under another stripe).  Grow / shrink / grow streams on the real table; only the
+    placement clauses of the structural scan are judged here (counters, sizes and contents belong to C02/C05)."""
+    import k2
+    cfgs = [k2.Cfg(S, M, 0, hm) for (S, M) in ((1, 2), (2, 4), (4, 8), (4, 2)) for hm in (0, 2, 4)]
+    if tier != "quick":
+        cfgs += [k2.Cfg(S, M, k, hm) for S in (1, 2, 3, 8) for M in (2, 4, 8) for k in (0, 1) for hm in (0, 1, 3, 5)]
+    bins = k2.build_all(cfgs)
+    nbad = nstreams = nops = 0
+    for cfg in cfgs:
+        ok, exe, log = bins[cfg.key()]
+        if not ok:
+            res.add_broken("K2 harness %s does not compile against /repo" % cfg.key(), log)
+            continue
+        for prof in ("limits", "mixed"):
+            g = k2.Gen(random.Random(rng.getrandbits(48)), cfg, prof)
+            lines = g.run(400 if tier == "quick" else 3000, allow_mlf0=(cfg.hashmode in (0, 4)), universe=rng.choice([48, 200, 600]))
+            rc, out, dt = C.sh([exe], input="\n".join(lines) + "\n", timeout=120)
+            ans = out.splitlines()
+            nstreams += 1
+            nops += len(lines)
+            # the library's own assertions about placement (index_hash / alt_index / stripe stability preconditions)
+            if rc != 0 and "Assertion" in out and any(x in out for x in ("index_hash", "alt_index", "old_ihash", "kMaxNumLocks", "new_ihash")):
+                nbad += 1
+                msg = [l for l in out.splitlines() if "Assertion" in l][0]
+                if len(res.failing) < 3:
+                    n_ok = max(0, len([a for a in ans if not ("Assertion" in a)]) - 0)
+                    res.add_failing({"what": "the library's placement assertion fails: " + msg[msg.find("Assertion"):][:200],
+                                     "config": cfg.name(), "cfg_line": cfg.line(), "prefix": lines[:min(len(lines), n_ok + 1)], "op_index": n_ok})
+                continue
+            for i, (ln, a) in enumerate(zip(lines, ans)):
+                if ln.split()[1] == "inv" and a.startswith("inv BAD") and any(c in a for c in PLACEMENT_CLAUSES):
+                    nbad += 1
+                    if len(res.failing) < 3:
+                        res.add_failing({"what": "placement clause of the structural scan fails on the real table: " + a,
+                                         "config": cfg.name(), "cfg_line": cfg.line(), "prefix": lines[:i + 1], "op_index": i})
+                    break
+    if nbad and not [b for b in res.broken if "placement" in b["what"]]:
+        res.add_broken("K2 placement scan: a stored key is outside its two buckets / deferred migration chosen without stripe stability "
+                       "(%d of %d streams)" % (nbad, nstreams))
+    res.cov["placement_streams"] = nstreams
+    res.cov["placement_requests"] = nops
+    res.cov["placement_failures"] = nbad
+
+
 def run(tier):
     res = C.Result("C13", tier)
     rng = random.Random(C.seed() * 7919 + 13)
@@ -162,6 +212,7 @@ def run(tier):
             fails = search_impl(k1, rng, 200000 if tier == "quick" else 2000000)
             for f in fails:
                 res.add_failing(f)
+    placement_phase(res, tier, rng)
     res.assumptions = ["shifts by >= 64 are undefined in C++ and excluded (theorems assume hp < 64; doubling facts hp+1 < 64)",
                        "reserve_calc theorem tied to the generated code for SLOT_PER_BUCKET=4; other S via K1 against the spec"]
     return C.finish(res, "proof", "cd lean && lake build Cuckoo.Props.C13 && #print axioms (check/common.py audit_axioms)")
@@ -176,6 +227,19 @@ def replay(path):
         return 2
     bad = 0
     for f in d.get("failing_inputs", []):
+        if "prefix" in f and "cfg_line" in f:
+            import k2
+            w = f["cfg_line"].split()
+            cfg = k2.Cfg(int(w[2]), int(w[3]), 0 if w[4] == "1" else (1 if w[5] == "1" else 2), int(w[7]))
+            ok2, exe, log2 = k2.harness_for(cfg)
+            if not ok2:
+                print(log2)
+                return 2
+            rc, out, dt = C.sh([exe], input="\n".join(f["prefix"]) + "\n", timeout=120)
+            last = out.splitlines()[-1] if out.splitlines() else "<none>"
+            print("replay %s: last answer: %s" % (cfg.name(), last))
+            if (last.startswith("inv BAD") and any(c in last for c in PLACEMENT_CLAUSES)) or "Assertion" in out:
+                bad += 1
         if "hash" in f:
             hp, h = f["hashpower"], f["hash"]
             out = eval_cpp(k1, ["arith partial_key %d" % h, "arith index_hash %d %d" % (hp, h)])
